@@ -543,11 +543,9 @@ fn main() {
             if is_heavy {
                 heavy(&mut live, &dict, &mut ev, want_img, want_reopen, &iopt);
             } else if !panicked && live.cf.is_some() {
-                let bytes_len = match &live.snap {
-                    Snap::Mem(b) => b.len(),
-                    Snap::File(p) => std::fs::metadata(p).map(|m| m.len() as usize).unwrap_or(0),
-                };
-                ev.insert("flen".into(), json!(bytes_len));
+                let bytes = live.snap.bytes();
+                ev.insert("flen".into(), json!(bytes.len()));
+                ev.insert("imghash".into(), json!(format!("{:016x}", fnv64(&bytes))));
             }
             writeln!(out, "{}", Value::Object(ev)).unwrap();
             if panicked || live.cf.is_none() {
